@@ -1,5 +1,6 @@
 /* C12 / C14 / C06 — SM2 key containers and key-share import (src/sm2_key.c, src/sm2_exch.c). */
 #define CONTRACT_FROM_OCTETS_RECORDING
+#define CONTRACT_KEYGEN
 #define CONTRACT_IS_AT_INFINITY_RECORDING
 #include "sm2_key.h"
 #include "libc.h"
@@ -59,5 +60,14 @@ void h_sm2_ecdh(void)
 	OBSERVE_INT("ret", ret);
 	NCHECK(!(ret == 1) || S.len == 33 || S.len == 65, "sm2_ecdh accepts only a 33- or 65-octet peer share");
 	if (ret == 1) { CANARY("accepted"); }
+	CANARY("returned");
+}
+
+//@job name=sm2_key_generate props=C18,C12 enforce=sm2_key_generate replace=sm2_z256_rand_range,sm2_z256_point_mul_generator loops=1
+void h_sm2_key_generate(void)
+{
+	INPUT(z256m_in, D); SM2_KEY key;
+	int ret = sm2_key_generate((D.mode & 1) ? NULL : &key);
+	if (ret == 1) { CANARY("generated"); }
 	CANARY("returned");
 }
